@@ -349,6 +349,12 @@ example : (stmtTextOf exLayout exProg 1).map String.ofList = some "bRp loop" ∧
     stmtTextOf exLayout exProg 7 = none := by
   decide
 
+/-- … and their spans in the text (`spans_render`): `ADD R1, r1,#-01` stands at bytes 28 … 43 behind
+`loop:  `, the three words of the `.STringz` share the directive's span -/
+example : itemsStmtSpans exLayout.names 0 exLayout.toks exProg.items =
+    [(28, 15), (51, 8), (74, 18), (74, 18), (74, 18), (93, 12), (107, 4)] := by
+  decide
+
 /-- the theorem applies: the text assembles, and the debugger shows these texts -/
 example : ∃ img tbl, assemble false [] (render exLayout exProg) = (.ok img, tbl) ∧
     img.spans.map (fun p => sliceBytes (render exLayout exProg) p.1 p.2) = (stmtTexts exLayout exProg).map some ∧
